@@ -45,6 +45,26 @@ theorem number64_rejects (ds : Bytes) (hne : ds ≠ []) (hall : ∀ d ∈ ds, is
     number64 (ds ++ c :: r) = .err :=
   Num.numberB_rejects (2 ^ 64) ds hne hall hbig c r hc
 
+/-- a field that does not start with a digit - a sign, a radix prefix, anything - is not a number:
+    there is no second conversion behind `number` that could give `-1` a value -/
+theorem number_needs_digit (bound : Nat) (c : UInt8) (r : Bytes) (hc : isDigit c = false) :
+    numberB bound (c :: r) = .err := by
+  cases h : numberB bound (c :: r) with
+  | ok n rest =>
+    obtain ⟨ds, h1, h2, h3, _⟩ := Num.numberB_sound bound (c :: r) n rest h
+    cases ds with
+    | nil => exact absurd rfl h2
+    | cons d ds' =>
+      have : d = c := by simpa using (List.cons.inj h1.symm).1
+      have := h3 d (by simp)
+      simp_all
+  | inc => simp [numberB, mapRes, takeWhile1, hc] at h
+  | err => rfl
+  | fail => simp [numberB, mapRes, takeWhile1, hc] at h
+  | panic => simp [numberB, mapRes, takeWhile1, hc] at h
+
+example : number (b!"-1 ") = .err := number_needs_digit _ _ _ (by decide)
+
 theorem take_exact (s rest : Bytes) : take s.length (s ++ rest) = .ok s rest := by
   simp [take]
 
